@@ -42,6 +42,8 @@ CLAIMS = {
          "Tie/oracle: perturbed Root fields, loader kind/store, byte-level damage of the top node judged by an independent decoder.", "5 C19"),
 }
 CLAIMS.update({
+ "C07": ("Theorems (generic in key/value types): for any two trees with consistently named hash links (any contents, heights, residency mix, nil old tree) the diff succeeds and every name reported as added is reached by the new version, every name the new version reaches is reported as added or reached by the old version, symmetrically for removed; hence (C07_replica_sync) a store holding the old version plus the added nodes holds the whole new version (sto, from which LoadMast succeeds by Reload.load_canon). "
+         "Partial: 'each name at most once' (the alreadyNotified memo) not proved yet; decided by correspondence + reachable-set oracle, which also loads the new root from a store holding only old + added nodes. Hypotheses as for C06.", "5 C07"),
  "C06": ("Theorems (generic in key/value types): Mast.diff on any two reachable trees (any contents incl. empty/emptied or a nil old tree, any heights, any residency mix, related or unrelated) terminates within its own step budget and its entry events are exactly the merge-difference of the two sorted listings; that merge-difference reports, for every key, exactly the event the two maps call for (added / removed / changed with old and new values, nothing on agreement), in strictly ascending key order hence once each; a stored name denotes one node (sto_fun) so skipping equal links is sound. "
          "Partial: the hypotheses (canonical trees, consistently named links) are proved invariant for single-tree persist/reload cycles and persist-free multi-tree histories, not yet for arbitrary multi-store worlds; callback / early-stop / failing-callback / cursor interfaces are derived from the one event list in World.step and compared with the implementation. Tie: diff histories incl. tall trees, unrelated stores, empty and emptied sides, diffstop/difffail/diffcur; dictionary-difference oracle.", "5 C06"),
  "C12": ("Theorems: over histories a failing call leaves every tree, captured root, store and cursor of the world unchanged, read-only calls never change it, only MakeRoot writes to a store; trace order: in Insert and Delete every event that can fail (loads, comparisons, the first layer callback) precedes the commit point, read-only calls never commit, with a total layer function Insert never errs after its commit; C12_delete_refuted: the full statement is false of the state installed at the commit when the shrink loop's load fails (known finding D13, with the grow-loop callback counterpart). "
@@ -50,7 +52,6 @@ CLAIMS.update({
          "Partial: the shrinking Delete and cursor steps are bounded by the oracle only. Tie: the implementation's loads per call must not exceed the model's (one-sided, caches off) and the per-operation oracle bounds on recorded Load calls.", "5 C16"),
 })
 PENDING = {
- "C07": "theorems about link events still being proved in this round; reachable-set oracle and correspondence exist and run clean",
  "C11": "model-level race-freedom theorems still being written; the -race engine and alone-vs-together comparison exist and run clean",
 }
 def main():
